@@ -154,11 +154,26 @@ func (u *Upstream) closeWithError(ctx context.Context, causeError error, opts ..
 }
 
 // closeWithState sends the close request with a state snapshot taken by the caller under the stream lock.
-func (u *Upstream) closeWithState(ctx context.Context, causeError error, state *UpstreamState, wireConn *wire.ClientConn, opts ...UpstreamCloseOption) error {
+func (u *Upstream) closeWithState(ctx context.Context, causeError error, state *UpstreamState, wireConn *wire.ClientConn, opts ...UpstreamCloseOption) (err error) {
 	defer u.cancel()
 	if u.isClosed() {
 		return nil
 	}
+	// the stream ends with this call whether or not the close request can still be delivered (the transport may be
+	// the very thing that failed): it is reported closed in either case, with the error that ended it
+	defer func() {
+		cause := causeError
+		if cause == nil {
+			cause = err
+		}
+		u.eventDispatcher.addHandler(func() {
+			u.Config.ClosedEventHandler.OnUpstreamClosed(&UpstreamClosedEvent{
+				Config: u.Config,
+				State:  *u.State(),
+				Err:    cause,
+			})
+		})
+	}()
 
 	opt := defaultUpstreamCloseOption
 	for _, v := range opts {
@@ -183,15 +198,6 @@ func (u *Upstream) closeWithState(ctx context.Context, causeError error, state *
 			ReceivedMessage: resp,
 		}
 	}
-	defer func() {
-		u.eventDispatcher.addHandler(func() {
-			u.Config.ClosedEventHandler.OnUpstreamClosed(&UpstreamClosedEvent{
-				Config: u.Config,
-				State:  *u.State(),
-				Err:    causeError,
-			})
-		})
-	}()
 	return nil
 }
 
